@@ -72,7 +72,12 @@ def cases(draw):
     spec = draw(gen.models(FEATS, max_classes=6))
     t, origin = draw(gen.doc_for(spec, tags=False, hard=False))
     t = draw(tagged(spec, t))
-    return {'model': spec, 'text': T.render_flow(t), 'src': origin.split(':')[0]}
+    src = origin.split(':')[0]
+    if draw(st.integers(0, 5)) == 0:
+        t, info = draw(gen.share(t))
+        if info:
+            src += '+aliases'
+    return {'model': spec, 'text': T.render_flow(t), 'src': src}
 
 
 def permute_spec(spec, variant):
@@ -140,12 +145,20 @@ def doc_tags(node, out=None, seen=None):
 
 
 def domain_ok(node):
-    seen = set()
+    """Aliases are transparent (C18): a document with (acyclic) aliases stands
+    for its expansion, which is what the reference reads."""
+    onpath = set()
 
     def go(n):
-        if id(n) in seen:
-            return 'alias'
-        seen.add(id(n))
+        if id(n) in onpath:
+            return 'cyclic_alias'
+        onpath.add(id(n))
+        try:
+            return go_(n)
+        finally:
+            onpath.discard(id(n))
+
+    def go_(n):
         if isinstance(n, yaml.SequenceNode):
             for i in n.value:
                 r = go(i)
@@ -334,6 +347,37 @@ def enum_tagged_scalars(shard, nshards):
                 i += 1
 
 
+def enum_aliased_scalars(shard, nshards):
+    """Model EV: class EA(k: Col, u: US, c: Union[Col, Shade], s: Union[US,
+    US2, int], t: Union[US, str]). One anchored scalar used at a specifically
+    typed position and, through an alias, at a Union position where the same
+    scalar is ambiguous (or the other way round): the alias must be read like a
+    copy of the scalar, never like "what the first use was recognised as"."""
+    i = 0
+    docs = []
+    for sc in ['red', 'dark', 'true', 'x', '"red"', '1']:
+        for a, b in [('k', 'c'), ('c', 'k'), ('u', 's'), ('s', 'u'), ('u', 't'), ('t', 'u'),
+                     ('k', 's'), ('k', 't'), ('u', 'c')]:
+            base = {'k': 'red', 'u': 'x'}
+            for first, second in [(a, b)]:
+                keys = [first, second] + [x for x in ('k', 'u') if x not in (first, second)]
+                parts = []
+                for key in keys:
+                    if key == first:
+                        parts.append('%s: &a %s' % (key, sc))
+                    elif key == second:
+                        parts.append('%s: *a' % key)
+                    else:
+                        parts.append('%s: %s' % (key, base[key]))
+                docs.append('{' + ', '.join(parts) + '}')
+                docs.append('[' + '{' + ', '.join(parts) + '}' + ']')
+        docs.append('[&a %s, {k: *a, u: x, c: *a}]' % sc)
+    for d in docs:
+        if i % nshards == shard:
+            yield {'portfolio': 'EV', 'text': d}
+        i += 1
+
+
 def _base_phases(tier):
     quick = tier != 'thorough'
     return [
@@ -347,6 +391,10 @@ def _base_phases(tier):
                   'unions of them): 7 scalar spellings x 11 tags (none, each class, '
                   '!Unknown, core tags) at the root, in a list and at every attribute, '
                   'with a second tagged scalar beside it'),
+        EnumPhase('aliased_scalars', enum_aliased_scalars,
+                  'model EV (enum / string-like typed attributes next to Unions of '
+                  'them): 6 scalar spellings anchored at one attribute and aliased at '
+                  'another, in both orders, in a list and from a list item'),
     ]
 
 
